@@ -10,7 +10,7 @@
 //!   bin  : y (class index 0/1 per row), lt ("bool"|"usize"|"string"), names (string form of class 0 / 1),
 //!          init ([] or p+icpt ints, value v/10), thrs (list of {"k":"default"} | {"k":"frac","a","b"} | {"k":"row","r"})
 //!   multi: y (class index), lt, names, init ([] or (p+icpt) rows of K ints, value v/10)
-//!   glm  : y (ints, value y/yd), yd, pn/pd (power), link ("identity"|"log"|"logit"|"auto")
+//!   glm  : y (ints, value y/yd * 2^ue), yd, ue (optional unit exponent), pn/pd (power), link ("identity"|"log"|"logit"|"auto")
 //! events:
 //!   {"ev":"fit","ok":true,"w6":..,"b6":..,"pos","neg" | "classes"}   (scale 10^6; "sane" false if not finite/too big)
 //!   {"ev":"fit","ok":false,"err":<variant>}
@@ -204,7 +204,9 @@ fn run_multi<C: Lab>(inp: &Value) -> Vec<Value> {
 fn run_glm(inp: &Value) -> Vec<Value> {
     let c = common(inp);
     let yd = geti(inp, "yd") as f64;
-    let y = Array1::from_iter(ivec(&inp["y"]).iter().map(|v| *v as f64 / yd));
+    // targets in the unit 2^ue (exact scaling in binary floating point); ue defaults to 0
+    let unit = 2f64.powi(inp.get("ue").and_then(|v| v.as_i64()).unwrap_or(0) as i32);
+    let y = Array1::from_iter(ivec(&inp["y"]).iter().map(|v| *v as f64 / yd * unit));
     let power = geti(inp, "pn") as f64 / geti(inp, "pd") as f64;
     let mut params = TweedieRegressor::params()
         .alpha(c.alpha)
